@@ -577,3 +577,18 @@ class AbsoluteDuration(Duration):
             self._invert = self._total < 0
 
         return self._invert
+
+    def _getstate(self) -> tuple[int, int, int, int, int, int, int, int, int]:
+        # The components are absolute values: the sign the duration
+        # was built with (invert, ==) goes back on the units of time
+        state = super()._getstate()
+        if self._total < 0:
+            return cast(
+                "tuple[int, int, int, int, int, int, int, int, int]",
+                tuple(-unit for unit in state[:7]) + state[7:],
+            )
+
+        return state
+
+    def __deepcopy__(self, _: dict[int, Self]) -> Self:
+        return self.__class__(*self._getstate())
